@@ -256,7 +256,7 @@ def run(tier='quick', seed=0, only=None, verbose=False):
     # reference iterates (harness of C03, a small grid here)
     from . import c03
     kj = []
-    for steps, store in ((2, 1), (3, 1), (4, 2)) if tier == 'quick' else ((2, 1), (3, 1), (4, 2), (5, 1), (6, 3), (7, 2)):
+    for steps, store in ((2, 1), (3, 1), (4, 2), (6, 2)) if tier == 'quick' else ((2, 1), (3, 1), (4, 2), (5, 1), (6, 2), (6, 3), (7, 2), (8, 2)):
         for backend, heuns, t0 in (('base', (False, True), 'sym'), ('torch', (False,), 0), ('jax', (False, True), 0)):
             for heun in heuns:
                 kj.append(dict(kind='kernel', backend=backend, heun=heun, steps=steps, store=store, rem=0,
